@@ -846,7 +846,7 @@ impl BuildTargetActor {
                 // a build in flight is abandoned for one reason only: the termination event (anything else leaves a target that
                 // was started, is neither finished nor re-armed, and whose requesters wait for ever)
                 /*[C06.no-abandon,C04.no-abandon]*/ tr.cancels_sent > 0 ==> tr.term_seen,
-                /*[C04.no-unrequest]*/ tr.sent_unreq ==> nonempty(tr.unreq),
+                /*[C04.no-unrequest,C11.keeps-requesting]*/ tr.sent_unreq ==> nonempty(tr.unreq),
                 /*[C08.no-inval-oneshot]*/ tr.sent_inval ==> count_inval(tr.inlog) > 0,
                 /*[C04.request-deps]*/ self.helper.req(ExecutionKind::Build).len() > 0 ==> deps_requested(&self.helper, *tr, ExecutionKind::Build) && deps_requested(&self.helper, *tr, ExecutionKind::Service),
                 /*[C08.once-local]*/ tr.starts.len() + (if self.helper.to_execute { 1nat } else { 0nat }) <= 1 + count_inval(tr.inlog),
@@ -1001,7 +1001,7 @@ impl ServiceTargetActor {
                 /*[C11.service-true]*/ oks_actual(*tr, ExecutionKind::Service, true),
                 /*[C11.service-true]*/ only_ok_actual(*tr, ExecutionKind::Build, false),
                 /*[C10.reap-service,C11.single-instance,C11.stop-at-exit]*/ reap_inv(self.service_process, *tr),
-                /*[C04.no-unrequest]*/ tr.sent_unreq ==> nonempty(tr.unreq),
+                /*[C04.no-unrequest,C11.keeps-requesting]*/ tr.sent_unreq ==> nonempty(tr.unreq),
                 /*[C08.no-inval-oneshot]*/ tr.sent_inval ==> count_inval(tr.inlog) > 0,
                 /*[C04.request-deps]*/ self.helper.req(ExecutionKind::Service).len() > 0 ==> deps_requested(&self.helper, *tr, ExecutionKind::Build) && deps_requested(&self.helper, *tr, ExecutionKind::Service),
                 /*[C08.once-local]*/ tr.spawn_calls + (if self.helper.to_execute { 1nat } else { 0nat }) <= 1 + count_inval(tr.inlog),
@@ -1107,7 +1107,7 @@ impl AggregateTargetActor {
                 /*[C04.ack,C20.fan-in]*/ told_if(&self.helper, *tr, ExecutionKind::Service, self.helper.un(ExecutionKind::Service).len() == 0),
                 /*[C20.actual,C11.agg-or]*/ agg_actual_ok(*tr, ExecutionKind::Build),
                 /*[C20.actual,C11.agg-or]*/ agg_actual_ok(*tr, ExecutionKind::Service),
-                /*[C04.no-unrequest]*/ tr.sent_unreq ==> nonempty(tr.unreq),
+                /*[C04.no-unrequest,C11.keeps-requesting]*/ tr.sent_unreq ==> nonempty(tr.unreq),
                 /*[C08.no-inval-oneshot,C20.inval]*/ tr.sent_inval ==> count_inval(tr.inlog) > 0,
                 /*[C04.request-deps,C20.fan-out]*/ self.helper.req(ExecutionKind::Build).len() > 0 ==> deps_requested(&self.helper, *tr, ExecutionKind::Build),
                 /*[C04.request-deps,C20.fan-out]*/ self.helper.req(ExecutionKind::Service).len() > 0 ==> deps_requested(&self.helper, *tr, ExecutionKind::Service),
